@@ -250,6 +250,62 @@ theorem left_null_proportional {n : Nat} {π : Nat → F} {Q : Nat → Nat → F
   field_simp at hpath
   linarith
 
+
+/-- left action through the right action of `x / π`: `(x Q)_j = π_j · (Q (x/π))_j` -/
+theorem applyLeft_eq_apply {n : Nat} {π : Nat → F} {Q : Nat → Nat → F} (hdb : DB n π Q) (hπ : ∀ i < n, 0 < π i)
+    (x : Nat → F) {j : Nat} (hj : j < n) :
+    applyLeft n Q x j = π j * apply n Q (fun i => x i / π i) j := by
+  unfold applyLeft apply
+  rw [mul_sum]
+  refine sum_congr rfl (fun i hi => ?_)
+  have hpi := (hπ i (mem_range.mp hi)).ne'
+  have hd := hdb i (mem_range.mp hi) j hj
+  calc x i * Q i j = (x i / π i) * (π i * Q i j) := by field_simp
+    _ = (x i / π i) * (π j * Q j i) := by rw [hd]
+    _ = π j * (Q j i * (x i / π i)) := by ring
+
+/-- a complex *left* eigenvalue of a reversible matrix is real -/
+theorem left_eigenvalue_real {n : Nat} {π : Nat → F} {Q : Nat → Nat → F} (hdb : DB n π Q)
+    (hπ : ∀ i < n, 0 < π i) (u w : Nat → F) (a b : F)
+    (hu : ∀ j < n, applyLeft n Q u j = a * u j - b * w j)
+    (hw : ∀ j < n, applyLeft n Q w j = b * u j + a * w j)
+    (hne : (∃ i < n, u i ≠ 0) ∨ (∃ i < n, w i ≠ 0)) :
+    b = 0 := by
+  refine eigenvalue_real hdb hπ (fun i => u i / π i) (fun i => w i / π i) a b ?_ ?_ ?_
+  · intro j hj
+    have hp := (hπ j hj).ne'
+    have h := applyLeft_eq_apply hdb hπ u hj
+    rw [hu j hj] at h
+    have : apply n Q (fun i => u i / π i) j = (a * u j - b * w j) / π j := by
+      rw [h]; field_simp
+    rw [this]; field_simp
+  · intro j hj
+    have hp := (hπ j hj).ne'
+    have h := applyLeft_eq_apply hdb hπ w hj
+    rw [hw j hj] at h
+    have : apply n Q (fun i => w i / π i) j = (b * u j + a * w j) / π j := by
+      rw [h]; field_simp
+    rw [this]; field_simp
+  · rcases hne with ⟨i, hi, h⟩ | ⟨i, hi, h⟩
+    · exact Or.inl ⟨i, hi, div_ne_zero h (hπ i hi).ne'⟩
+    · exact Or.inr ⟨i, hi, div_ne_zero h (hπ i hi).ne'⟩
+
+/-- a real *left* eigenvalue of a reversible generator is not positive -/
+theorem left_eigenvalue_nonpos {n : Nat} {π : Nat → F} {Q : Nat → Nat → F} (hdb : DB n π Q) (hrs : RowSumZero n Q)
+    (hπ : ∀ i < n, 0 < π i) (hQ : ∀ i < n, ∀ j < n, i ≠ j → 0 ≤ Q i j)
+    (x : Nat → F) (lam : F) (heig : ∀ j < n, applyLeft n Q x j = lam * x j) (hx : ∃ i < n, x i ≠ 0) :
+    lam ≤ 0 := by
+  refine eigenvalue_nonpos hdb hrs hπ hQ (fun i => x i / π i) lam ?_ ?_
+  · intro j hj
+    have hp := (hπ j hj).ne'
+    have h := applyLeft_eq_apply hdb hπ x hj
+    rw [heig j hj] at h
+    have : apply n Q (fun i => x i / π i) j = (lam * x j) / π j := by
+      rw [h]; field_simp
+    rw [this]; field_simp
+  · obtain ⟨i, hi, h⟩ := hx
+    exact ⟨i, hi, div_ne_zero h (hπ i hi).ne'⟩
+
 end ordered
 
 end Molgri.Reversible
